@@ -337,6 +337,8 @@ class Sim:
                     sm = self._machine(tag, obj, loc)
                     for s in sends:
                         self._send_sync(sm, s, q, tag, loc)
+                for xs in rule.get("xsends") or []:
+                    self._xsend_sync(xs, q, tag, loc)
                 rz = rule.get("raise")
                 if rz:
                     self.stats["raises"] += 1
@@ -352,6 +354,39 @@ class Sim:
             raise
         finally:
             stack.pop()
+
+    def _xsend_sync(self, xs, q, tag, loc):
+        """Send an event to ANOTHER, independent machine from inside this callback."""
+        sm2 = self.machines.get(xs["inst"])
+        if sm2 is None:
+            return
+        ev, args, kw = self._fill(xs, loc)
+        self.stats["xsends"] = self.stats.get("xsends", 0) + 1
+        n = self.rec(k="ns+", i=tag, r=q, ev=ev, a=enc(list(args)), kw=enc(kw), to=xs["inst"])
+        try:
+            r = sm2.send(ev, *args, **kw)
+        except BaseException as e:
+            self.rec(k="ns-", r=n, out=["exc", self._describe_exc(e)], to=xs["inst"])
+            raise
+        self.rec(k="ns-", r=n, out=["ret", enc(r)], to=xs["inst"], st=enc(sm2.current_state_value))
+        return r
+
+    async def _xsend_async(self, xs, q, tag, loc):
+        sm2 = self.machines.get(xs["inst"])
+        if sm2 is None:
+            return
+        ev, args, kw = self._fill(xs, loc)
+        self.stats["xsends"] = self.stats.get("xsends", 0) + 1
+        n = self.rec(k="ns+", i=tag, r=q, ev=ev, a=enc(list(args)), kw=enc(kw), to=xs["inst"])
+        try:
+            r = sm2.send(ev, *args, **kw)
+            if asyncio.iscoroutine(r) or isinstance(r, asyncio.Future):
+                r = await r
+        except BaseException as e:
+            self.rec(k="ns-", r=n, out=["exc", self._describe_exc(e)], to=xs["inst"])
+            raise
+        self.rec(k="ns-", r=n, out=["ret", enc(r)], to=xs["inst"], st=enc(sm2.current_state_value))
+        return r
 
     def _fill(self, s, loc):
         kw = dict(dec(s.get("kwargs") or {}))
@@ -401,6 +436,9 @@ class Sim:
                     sm = self._machine(tag, obj, loc)
                     for s in sends:
                         await self._send_async(sm, s, q, tag, loc)
+                if not stale:
+                    for xs in rule.get("xsends") or []:
+                        await self._xsend_async(xs, q, tag, loc)
                 rz = rule.get("raise")
                 if rz:
                     self.stats["raises"] += 1
